@@ -34,6 +34,11 @@ func c06(c *Ctx) {
 	r.Rule("R06.W", "no variable-length big.Int.Bytes() reaches a fixed-width position (copy left-aligned, constant slice/index, bytes.Equal against a digest, stored as key); fixed-width conversions use the protocol width of their operand", 8)
 	r.Rule("R06.A", "the client's DH message is readable by a conformant server for every g_b: SHA1(data)+data is padded with 0..15 bytes to a whole block (tabulated over the data length), so the server's search over paddings 0..15 finds the hash whatever the byte length of g_b", 1)
 	c.checkTempKeyPad("R06.A")
+	r.Rule("R06.B", "no function of packages math and keys writes through a []byte parameter other than a named destination (dst / out): nonces and key material are used again after the call", 2)
+	c.paramsUntouched("R06.B", load.MathPkg, func(g *ssa.Function, idx int) bool {
+		n := g.Params[idx].Name()
+		return n == "dst" || n == "out"
+	})
 	r.Rule("R06.T", "the byte strings of the exchange (pq, p, q, g_b, encrypted data) are written in the schema's string form for every length: 1-byte header below 254 bytes, 4-byte header from 254 on (= C02 R02.S; g_b is 254 bytes once in 65536 exchanges)", 3)
 	c02Strings(c, an.NewTracer(), "R06.T", "R06.T", "")
 	r.Rule("R06.I", "every answer of the key exchange reaches the caller that waits for it: each successful exit of readMsg after a message was read passes the (blocking) service-channel send or processResponse (= C09 R09.I) - an answer that arrives before the caller is parked must wait for it, not be dropped", 2)
